@@ -331,9 +331,18 @@ POINT_WF = [("in-span", "forall(%s.entries, lambda p: %s.minTimestamp <= p.time 
             ("distinct-times", "adjacent(%s.entries, lambda a, b: a.time < b.time)")]
 
 
-def wf_clauses(r):
+def wf_clauses(r, span="not-shrunk"):
+    """the loop invariant of union / difference: well-formed, still named like the receiver, span not shrunk (union
+    may widen it) / unchanged (difference)"""
+    keeps = [("name-kept", "%s.name == self.name" % r),
+             ("span-between-receiver-and-hull",
+              "%s.minTimestamp <= self.minTimestamp and self.maxTimestamp <= %s.maxTimestamp and "
+              "min(self.minTimestamp, tier.minTimestamp) <= %s.minTimestamp and "
+              "%s.maxTimestamp <= max(self.maxTimestamp, tier.maxTimestamp)" % (r, r, r, r))
+             if span == "not-shrunk" else
+             ("span-kept", "%s.minTimestamp == self.minTimestamp and %s.maxTimestamp == self.maxTimestamp" % (r, r))]
     return lambda cur: (wf_interval_clauses(r) if cls_name(cur) == "IntervalTier"
-                        else [(l, t.replace("%s", r)) for l, t in POINT_WF])
+                        else [(l, t.replace("%s", r)) for l, t in POINT_WF]) + keeps
 
 
 def two_tiers(S, cfg):
@@ -343,14 +352,20 @@ def two_tiers(S, cfg):
 
 
 INV = {"loop#1": {"invariant": {"var": "retTier", "builder": inv_tier, "clauses": wf_clauses("retTier")}}}
+INV_KEEP = {"loop#1": {"invariant": {"var": "retTier", "builder": inv_tier, "clauses": wf_clauses("retTier", "kept")}}}
 
 contract(TT + ".union", serves=["C05", "C10", "C13"], spec_module="spec.tiers",
          configs={"kind": ["interval", "point"]}, inputs=two_tiers, loops=INV, frame=["self", "tier"],
-         ensures=[("well-formed", "well_formed(result)")])
+         ensures=[("well-formed", "well_formed(result)"), ("name-kept", "result.name == self.name"),
+                  ("span-between-receiver-and-hull",
+                   "result.minTimestamp <= self.minTimestamp and self.maxTimestamp <= result.maxTimestamp and "
+                   "min(self.minTimestamp, tier.minTimestamp) <= result.minTimestamp and "
+                   "result.maxTimestamp <= max(self.maxTimestamp, tier.maxTimestamp)")])
 
 contract(IT + ".difference", serves=["C05", "C10", "C13"], spec_module="spec.tiers",
-         configs={"kind": ["interval"]}, inputs=two_tiers, loops=INV, frame=["self", "tier"],
-         ensures=[("well-formed", "well_formed(result)")])
+         configs={"kind": ["interval"]}, inputs=two_tiers, loops=INV_KEEP, frame=["self", "tier"],
+         ensures=[("well-formed", "well_formed(result)"), ("name-kept", "result.name == self.name"),
+                  ("span-kept", "result.minTimestamp == self.minTimestamp and result.maxTimestamp == self.maxTimestamp")])
 
 
 # ---- TextgridTier.new(): an independent copy; a requested span is widened to the entries, never kept narrower
